@@ -295,6 +295,15 @@ impl<Req, Resp, C> RequestDispatch<Req, Resp, C>
 where
     C: Transport<ClientMessage<Req>, Response<Resp>>,
 {
+    /// Verification accessor: (tracked in-flight requests, armed deadline timers).
+    #[cfg(tarpc_verif)]
+    pub fn verif_counts(&self) -> (usize, usize) {
+        (
+            self.in_flight_requests.len(),
+            self.in_flight_requests.verif_timers(),
+        )
+    }
+
     fn in_flight_requests<'a>(
         self: &'a mut Pin<&mut Self>,
     ) -> &'a mut InFlightRequests<Result<Resp, RpcError>> {
